@@ -298,7 +298,7 @@ pub fn exec(w: &World, proxy: &Proxy, timeout_ms: u64, ops: &[Op]) -> Result<Str
 }
 
 pub fn run(ctx: &mut Ctx) {
-    let w = c07::make_world(2);
+    let w = c07::make_world_opts(2, false);
     let proxy = start_proxy();
     ctx.notes.push(format!("SOCKS5 proxy of the harness at {}; destinations {:?}", proxy.addr, w.dst));
     let nflows = 2 * ND;
